@@ -133,8 +133,21 @@ func VerifScheduled() {
 	case 2: // ---------------- burn of the remaining minted supply
 		mint := vrtMustAddr(specMintAddr)
 		// committed balances of the mint address: arbitrary for three listed assets
-		tx0, _ := db.Begin()
 		listed := []fat2.PTicker{fat2.PTickerPEG, fat2.PTickerUSD, fat2.PTickerDGB}
+		// an earlier state of the mint address, read the way the API reads it (get-pegnet-balances)
+		// moments before the block: what the burn removes is the balance AS OF ITS BLOCK, whatever
+		// was read from the ledger before
+		txe, _ := db.Begin()
+		for _, tk := range listed {
+			vrtSetBalance(txe, mint, tk, vrt.URange("earlier", 0, vrtMaxBal))
+		}
+		if err := txe.Commit(); err != nil {
+			panic(err)
+		}
+		if _, err := d.Pegnet.SelectBalances(&mint); err != nil {
+			panic(err)
+		}
+		tx0, _ := db.Begin()
 		for _, tk := range listed {
 			vrtSetBalance(tx0, mint, tk, vrt.URange("left", 0, vrtMaxBal))
 		}
